@@ -329,70 +329,119 @@ func (m *Model) RunRegistry(s *Sink, rule string) {
 					continue
 				}
 				nDyn++
-				derives := func(v ssa.Value) bool {
-					for i := 0; i < 4; i++ {
-						if v == ssa.Value(c) {
-							return true
-						}
-						switch x := v.(type) {
-						case *ssa.Convert:
-							v = x.X
-						case *ssa.ChangeType:
-							v = x.X
-						case *ssa.MakeInterface:
-							v = x.X
-						default:
-							return false
-						}
-					}
-					return v == ssa.Value(c)
-				}
-				passes := func(bb *ssa.BasicBlock, from int) bool {
-					for i := from; i < len(bb.Instrs); i++ {
-						switch x := bb.Instrs[i].(type) {
-						case *ssa.Call:
-							if x.Call.StaticCallee() == nto {
+				// flow: from the instruction that produced the value (the call itself; in a caller, the call of the helper
+				// that hands the raw result up) every path to a return converts it, or returns it raw to callers that do
+				var flow func(root ssa.Instruction, depth int) string
+				flow = func(root ssa.Instruction, depth int) string {
+					rootV, _ := root.(ssa.Value)
+					derives := func(v ssa.Value) bool {
+						for i := 0; i < 5; i++ {
+							if v == rootV {
 								return true
 							}
-							if sc := x.Call.StaticCallee(); sc != nil && m.InModule(sc) {
-								for _, a := range x.Call.Args {
-									if derives(a) {
-										return true // handed to a module conversion helper (checked by R-KINDS for its own contract)
+							switch x := v.(type) {
+							case *ssa.Convert:
+								v = x.X
+							case *ssa.ChangeType:
+								v = x.X
+							case *ssa.MakeInterface:
+								v = x.X
+							case *ssa.ChangeInterface:
+								v = x.X
+							case *ssa.Phi:
+								all := len(x.Edges) > 0
+								for _, e := range x.Edges {
+									if k, isK := e.(*ssa.Const); isK && k.IsNil() {
+										continue
+									}
+									if stripIface(e) != rootV {
+										all = false
+									}
+								}
+								return all
+							default:
+								return false
+							}
+						}
+						return v == rootV
+					}
+					passes := func(bb *ssa.BasicBlock, from int) bool {
+						for i := from; i < len(bb.Instrs); i++ {
+							switch x := bb.Instrs[i].(type) {
+							case *ssa.Call:
+								if x.Call.StaticCallee() == nto {
+									return true
+								}
+								if sc := x.Call.StaticCallee(); sc != nil && m.InModule(sc) {
+									for _, a := range x.Call.Args {
+										if derives(a) {
+											return true // handed to a module conversion helper (checked by R-KINDS for its own contract)
+										}
+									}
+								}
+							case *ssa.Store:
+								if fa, isFA := x.Addr.(*ssa.FieldAddr); isFA && derives(x.Val) {
+									if _, fresh := fa.X.(*ssa.Alloc); fresh {
+										return true
 									}
 								}
 							}
-						case *ssa.Store:
-							if fa, isFA := x.Addr.(*ssa.FieldAddr); isFA && derives(x.Val) {
-								if _, fresh := fa.X.(*ssa.Alloc); fresh {
-									return true
+						}
+						return false
+					}
+					seen := map[*ssa.BasicBlock]bool{}
+					escape := ""
+					var walk func(bb *ssa.BasicBlock, from int)
+					walk = func(bb *ssa.BasicBlock, from int) {
+						if escape != "" || (from == 0 && seen[bb]) {
+							return
+						}
+						if from == 0 {
+							seen[bb] = true
+						}
+						if passes(bb, from) {
+							return
+						}
+						if ret, isRet := bb.Instrs[len(bb.Instrs)-1].(*ssa.Return); isRet {
+							if len(ret.Results) == 1 && derives(retSource(ret, 0)) && depth < 2 {
+								// handed up unconverted: every caller must convert it
+								node := m.CG.Nodes[root.Parent()]
+								nCallers := 0
+								if node != nil {
+									for _, e := range node.In {
+										cs, isCall := e.Site.(*ssa.Call)
+										if !isCall || !m.InModule(e.Caller.Func) || isSynthetic(e.Caller.Func) {
+											continue
+										}
+										nCallers++
+										if w := flow(cs, depth+1); w != "" && escape == "" {
+											escape = w
+										}
+									}
 								}
+								if nCallers == 0 && escape == "" {
+									escape = m.InstrPos(ret)
+								}
+								return
 							}
+							escape = m.InstrPos(ret)
+							return
+						}
+						for _, sc := range bb.Succs {
+							walk(sc, 0)
 						}
 					}
-					return false
+					idx0 := 0
+					for i, x := range root.Block().Instrs {
+						if x == root {
+							idx0 = i + 1
+						}
+					}
+					walk(root.Block(), idx0)
+					return escape
 				}
-				seen := map[*ssa.BasicBlock]bool{}
-				escape := ""
-				var walk func(bb *ssa.BasicBlock, from int)
-				walk = func(bb *ssa.BasicBlock, from int) {
-					if escape != "" || (from == 0 && seen[bb]) {
-						return
-					}
-					if from == 0 {
-						seen[bb] = true
-					}
-					if passes(bb, from) {
-						return
-					}
-					if ret, isRet := bb.Instrs[len(bb.Instrs)-1].(*ssa.Return); isRet {
-						escape = m.InstrPos(ret)
-						return
-					}
-					for _, sc := range bb.Succs {
-						walk(sc, 0)
-					}
-				}
-				walk(b, idx+1)
+				_ = idx
+				escape := flow(c, 0)
 				key := fmt.Sprintf("%s|result of the %s function becomes the object its value would be as data", fnKey(fn), shortTypeName(types.TypeString(c.Call.Value.Type(), nil)))
 				if escape == "" {
 					s.OK(rule, key, m.InstrPos(c), "every path from the call to a return passes NativeToObject or stores the result into a fresh object")
